@@ -5,6 +5,7 @@ package main
 import (
 	"fmt"
 	"go/token"
+	"go/types"
 	"regexp/syntax"
 	"strings"
 
@@ -21,6 +22,7 @@ func init() {
 			c.run("C06-S1", "shared with C16-R8: the repeated-id test asks the environment predicate (a Windows console on the path, not only a Windows host)", c16WinPredicates)
 			c.run("C06-S2", "shared with C05-R4: the handler gives the session up on every exit (also when the transfer goes to the background), so the next trigger starts a transfer", c05R4)
 			c.run("C06-R3", "LITERAL: suppression words are words the code prints", c06R3)
+			c.run("C06-R8", "GUARD-DOM: the tunnel flag given to the detector (connector pointer != nil) is true only for a usable connector", c06TunnelFlag)
 		})
 }
 
@@ -622,6 +624,12 @@ func c06R3(c *Ctx) {
 		}
 	})
 	if len(words) < 5 {
+		// the words kept in a package-level table that the initialiser fills once
+		if ws, ok := c.initTableWords(det); ok {
+			words = append(words, ws...)
+		}
+	}
+	if len(words) < 5 {
 		c.undecided("words", fmt.Sprintf("expected five suppression words, found %v", words))
 		return
 	}
@@ -642,6 +650,28 @@ func c06R3(c *Ctx) {
 				}
 			}
 		})
+	}
+	// the constant messages the servers end a transfer with are recognised by one of the words
+	nExit := 0
+	for _, f := range c.AllFns {
+		for _, ci := range callsIn(f, idIs(tT+"serverExit", tT+"clientExit")) {
+			args := ci.Common().Args
+			msg, ok := constString(strip(args[len(args)-1]))
+			if !ok {
+				continue
+			}
+			nExit++
+			hit := ""
+			for _, w := range words {
+				if strings.Contains(msg, w) {
+					hit = w
+				}
+			}
+			c.check(hit != "", "exit-message/"+c.fnName(f)+"/"+msg, c.ipos(ci.(ssa.Instruction)), fmt.Sprintf("the closing message %q carries the suppression word %q", msg, hit), fmt.Sprintf("the closing message %q carries none of the suppression words %v: a replayed trigger followed by it starts a transfer again", msg, words))
+		}
+	}
+	if nExit < 2 {
+		c.undecided("exit-messages", fmt.Sprintf("expected the two constant cancel messages of trz and tsz, found %d", nExit))
 	}
 	for _, w := range words {
 		where := ""
@@ -785,5 +815,193 @@ func c06OneDetector(c *Ctx) {
 			}
 			c.check(good && n == 1, name+"/detector-made-once", c.ipos(d), "the pump's detector is made once, before the read loop", "the detector is made anew inside the read loop (or its origin is not a single newTrzszDetector call): the ids already seen are forgotten, a redrawn trigger starts a second transfer")
 		}
+	}
+}
+
+// errorTextMakers: constructors whose result's Error() is their constant first argument (no verbs): fmt.Errorf and
+// errors.New by documentation, simpleTrzszError because trzszError.Error returns the message it was made with.
+var errorTextMakers = map[string]bool{"fmt.Errorf": true, "errors.New": true, "trzsz.simpleTrzszError": true}
+
+// globalInitOnce: the single value stored to g, when that store is in the package initialiser.
+func (c *Ctx) globalInitOnce(g *ssa.Global) (ssa.Value, bool) {
+	var val ssa.Value
+	n := 0
+	for _, f := range c.AllFns {
+		eachInstr(f, func(in ssa.Instruction) {
+			if st, ok := in.(*ssa.Store); ok && st.Addr == ssa.Value(g) {
+				n++
+				if f.Name() == "init" {
+					val = st.Val
+				} else {
+					n += 100
+				}
+			}
+		})
+	}
+	return val, n == 1 && val != nil
+}
+
+// initText: the text of a string / []byte expression evaluated in the initialiser: a constant, or X.Error() of a
+// package-level error that is set once from a constructor of errorTextMakers.
+func (c *Ctx) initText(v ssa.Value) (string, bool) {
+	for {
+		if cv, ok := v.(*ssa.Convert); ok {
+			v = cv.X
+			continue
+		}
+		if s := strip(v); s != v {
+			v = s
+			continue
+		}
+		break
+	}
+	if s, ok := constString(v); ok {
+		return s, true
+	}
+	call, ok := v.(*ssa.Call)
+	if !ok {
+		return "", false
+	}
+	var recv ssa.Value
+	if call.Call.IsInvoke() && call.Call.Method.Name() == "Error" {
+		recv = call.Call.Value
+	} else if f := call.Call.StaticCallee(); f != nil && f.Name() == "Error" && len(call.Call.Args) == 1 {
+		recv = call.Call.Args[0]
+	} else {
+		return "", false
+	}
+	u, ok := strip(recv).(*ssa.UnOp)
+	if !ok {
+		return "", false
+	}
+	g, ok := u.X.(*ssa.Global)
+	if !ok {
+		return "", false
+	}
+	iv, ok := c.globalInitOnce(g)
+	if !ok {
+		return "", false
+	}
+	mk, _ := callOf(strip(iv))
+	if mk == nil || !errorTextMakers[calleeID(&mk.Call)] || len(mk.Call.Args) == 0 {
+		return "", false
+	}
+	s, ok := constString(mk.Call.Args[0])
+	return s, ok && !strings.Contains(s, "%")
+}
+
+// initTableWords: the texts of the package-level slice tables f reads, each filled once by the initialiser.
+func (c *Ctx) initTableWords(f *ssa.Function) ([]string, bool) {
+	var words []string
+	okAll := true
+	seen := map[*ssa.Global]bool{}
+	eachInstr(f, func(in ssa.Instruction) {
+		u, ok := in.(*ssa.UnOp)
+		if !ok {
+			return
+		}
+		g, ok := u.X.(*ssa.Global)
+		if !ok || seen[g] {
+			return
+		}
+		if _, isSlice := u.Type().Underlying().(*types.Slice); !isSlice {
+			return
+		}
+		seen[g] = true
+		iv, ok := c.globalInitOnce(g)
+		if !ok {
+			return
+		}
+		sl, ok := iv.(*ssa.Slice)
+		if !ok {
+			return
+		}
+		al, ok := sl.X.(*ssa.Alloc)
+		if !ok || al.Comment != "slicelit" {
+			return
+		}
+		for _, ref := range *al.Referrers() {
+			ia, ok := ref.(*ssa.IndexAddr)
+			if !ok {
+				continue
+			}
+			for _, r2 := range *ia.Referrers() {
+				if st, ok := r2.(*ssa.Store); ok && st.Addr == ssa.Value(ia) {
+					if t, ok := c.initText(st.Val); ok {
+						words = append(words, t)
+					} else {
+						okAll = false
+					}
+				}
+			}
+		}
+	})
+	return words, okAll && len(words) > 0
+}
+
+// c06TunnelFlag: the pumps tell the detector "a tunnel can be dialled" by testing the stored connector pointer against
+// nil; that is only the truth when every writer stores nil for a nil connector (a control-mode trigger with a port is
+// accepted on the strength of this flag, and the handler would then dial nothing).
+func c06TunnelFlag(c *Ctx) {
+	nFlag := 0
+	for _, f := range c.AllFns {
+		for _, ci := range callsIn(f, idIs("(*trzsz.trzszDetector).detectTrzsz")) {
+			args := ci.Common().Args
+			key := "flag/" + c.fnName(f)
+			b, ok := strip(args[len(args)-1]).(*ssa.BinOp)
+			if !ok || b.Op != token.NEQ || !isNilConst(b.Y) {
+				c.undecided(key, "the tunnel flag handed to the detector is not the connector pointer tested against nil")
+				continue
+			}
+			ld, _ := callOf(b.X)
+			if ld == nil || !isAtomicOnField(ld, "tunnelConnector", "Load") {
+				c.undecided(key, "the tunnel flag handed to the detector is not the connector pointer tested against nil")
+				continue
+			}
+			nFlag++
+			c.ok(key, c.ipos(ci.(ssa.Instruction)), "the detector's tunnel flag is 'connector pointer != nil'")
+		}
+	}
+	if nFlag == 0 {
+		return
+	}
+	nStore := 0
+	for _, f := range c.AllFns {
+		for _, ci := range callsIn(f, anyID) {
+			if !isAtomicOnField(ci, "tunnelConnector", "Store", "Swap", "CompareAndSwap") {
+				continue
+			}
+			nStore++
+			args := ci.Common().Args
+			v := strip(args[len(args)-1])
+			key := "store/" + c.fnName(f)
+			if isNilConst(v) {
+				c.ok(key+"/nil", c.ipos(ci.(ssa.Instruction)), "stores nil")
+				continue
+			}
+			al, ok := v.(*ssa.Alloc)
+			if !ok {
+				c.undecided(key, "cannot tell which function value the stored pointer refers to")
+				continue
+			}
+			var vals []ssa.Value
+			for _, r := range *al.Referrers() {
+				if st, ok := r.(*ssa.Store); ok && st.Addr == ssa.Value(al) {
+					vals = append(vals, st.Val)
+				}
+			}
+			isFn := func(x ssa.Value) bool {
+				x = strip(x)
+				if u, ok := x.(*ssa.UnOp); ok && u.X == ssa.Value(al) {
+					return true
+				}
+				return len(vals) == 1 && x == strip(vals[0])
+			}
+			good := len(vals) == 1 && factCmp(factsAt(ci.Block()), token.NEQ, isFn, isNilConst)
+			c.check(good, key+"/non-nil", c.ipos(ci.(ssa.Instruction)), "a connector is stored only after it was tested non-nil", "a pointer to a connector that may be nil is stored: the pumps' 'pointer != nil' then tells the detector a tunnel exists, a control-mode trigger with a port is accepted and nothing can be dialled")
+		}
+	}
+	if nStore < 4 {
+		c.undecided("stores", fmt.Sprintf("expected the four stores of the two SetTunnelConnector methods, found %d", nStore))
 	}
 }
